@@ -41,6 +41,12 @@ def run(ctx):
         c["ra" if i % 2 == 0 else "rb"] = s
         cases.append(c)
     cases.append({"kind": "kx", "da": "1", "db": hex(N - 2)[2:], "ra": "2", "rb": "3", "ida": {"kind": "default"}, "idb": {"kind": "default"}, "klen": 16})
+    # identities whose bit length does not fit one byte (ENTL is a 16-bit field): 256, 300 and the maximum 8191 bytes
+    cases.append({"kind": "kx", "da": rk(), "db": rk(), "ra": rk(), "rb": rk(), "ida": ids(256), "idb": ids(300), "klen": 16, "note": "long identities"})
+    cases.append({"kind": "kx", "da": rk(), "db": rk(), "ra": rk(), "rb": rk(), "ida": ids(8191), "idb": ids(255), "klen": 16, "note": "long identities"})
+    # sparse scalars (long runs of zero digits in any recoding) as long-term and as ephemeral key
+    cases.append({"kind": "kx", "da": hex((1 << 200) + 1)[2:], "db": rk(), "ra": rk(), "rb": hex(3 << 140)[2:], "ida": ids(3), "idb": ids(4), "klen": 16, "note": "sparse scalars"})
+    cases.append({"kind": "kx", "da": rk(), "db": hex((1 << 255) - (1 << 130))[2:], "ra": hex((1 << 129) + 1)[2:], "rb": rk(), "ida": ids(3), "idb": ids(4), "klen": 16, "note": "sparse scalars"})
     # both ephemeral keys with a short x coordinate in ONE exchange
     if len(shortx) < 2:
         raise Infra("fewer than two small scalars with a short x coordinate found")
